@@ -113,4 +113,14 @@ CHECKS["C17"] = dict(
     assumptions=["range taken as [x_first,x_last] of the stored nodes", "nx<=65"],
     runs=[run("c17", "c17.cpp"), run("c17_asan", "c17.cpp", "asan", args=["--reduced"])],
 )
+
+CHECKS["C05"] = dict(
+    level=E,
+    rule="d in {2,3,6} (thorough 2..6); grids: linear nx in {2,3,4,5,7}, log nx in {2,3,5}, three irregular user grids; time configurations (t_ini,elapsed,numerics) in 7 combinations reached through Evolve; "
+         "node states = distinct probes per node and rho (2 rhos); operators = all basis vectors + probe; x = every node, mid/quarter/0.9 points, nextafter inside both ends; outside = nextafter/near/far on both sides; "
+         "all 7 overloads; 125 dimension sequences of three solvers queried alternately on a fresh thread (thread-local scratch). Oracle: dense Tr(e^{-iH0 tau} rho e^{iH0 tau} O), reference bracket by linear scan, "
+         "H0 at x itself; agreement at nodes; unreachable-scale averaging == plain; reachable scale consistent with the averaged table; outside must throw on both sides. distinct by (grid, time cfg, node/x, operator)",
+    assumptions=["strictly increasing grids with >=2 nodes", "H0 diagonal", "stored state read through the derived class is the oracle's input"],
+    runs=[run("c05", "c05.cpp", shards=8), run("c05_asan", "c05.cpp", "asan", args=["--reduced"])],
+)
 NOT_APPLICABLE = {}
